@@ -1,5 +1,5 @@
 /- C02: compile correctness of the compiler model for the STATEMENT fragment
-     e ::= literal | symbol | (f e) | (do e ...) | (def x e)        f a global core function other than `apply`
+     e ::= literal | symbol | (f e) | (do e ...) | (upscope e ...) | (def x e)        f a global core function other than `apply`
    (`G` = the names used as global functions; they are never defined).  Value used or dropped, near registers, block scopes.
    New with respect to Compile/Correct.lean: the environment changes (`def` binds: `Lang/Sem` box ↔ register, a fresh register
    and a copy or an alias of a named immutable local, exactly as `namelocal` decides), scopes are pushed and popped
@@ -17,6 +17,7 @@ inductive TS (G : String → Prop) : Expr → Prop
   | call1 (f : String) (a : Expr) (p : Pos) : specials.contains f = false → f ≠ "apply" → G f → TS G a → TS G (.form [.sym f, a] p)
   | doo (body : List Expr) (p : Pos) : (∀ e, e ∈ body → TS G e) → TS G (.form (.sym "do" :: body) p)
   | deff (x : String) (v : Expr) (p : Pos) : ¬ G x → TS G v → TS G (.form [.sym "def", .sym x, v] p)
+  | ups (body : List Expr) (p : Pos) : (∀ e, e ∈ body → TS G e) → TS G (.form (.sym "upscope" :: body) p)
 
 theorem TS.notSplice {G : String → Prop} {e : Expr} (h : TS G e) : isSplice e = none := by
   cases h with
@@ -38,6 +39,12 @@ theorem TS.notSplice {G : String → Prop} {e : Expr} (h : TS G e) : isSplice e 
       simp at heq
     · rfl
   | deff x v p _ _ =>
+    simp only [isSplice]
+    split
+    · rename_i x _ heq
+      simp at heq
+    · rfl
+  | ups body p _ =>
     simp only [isSplice]
     split
     · rename_i x _ heq
